@@ -213,27 +213,46 @@ def coq_phase(ph):
 DIR_KIND = ["1"]
 
 
+VARIANT = [0]  # repairs present in the code under test, as bits: 1 keep falsy inputs, 2 wrap every input, 4 replace members
+
+
 def probe_store_variant():
-    """behavioural probe (fail-closed): the suffix-identifier witness ba.fa (fails) / a.fa (completes), serial"""
-    specs = std_pipeline(1)
-    apply_pattern(specs, "ba.fa", (0, ["raise", "boom"]))
-    case = dict(block="probe", phases=[phase(specs, [sinput("ba.fa"), sinput("a.fa")], None)])
-    r = core.run_impl_lines("c14_impl.py", [case])[0]
-    if isinstance(r, dict) or not r or r[0].get("exc") is not None or [d[0] for d in r[0]["done"]] != ["a.json"]:
-        raise core.CheckError(f"store variant probe gave an unexpected observation: {str(r)[:400]}")
-    names = [n[0] for n in r[0]["nc"]]
-    if names == ["ba.json"]:
-        DIR_KIND[0] = "2"
-        return "repaired: exact-name retirement (Model.Apps.dir_kind_fixed)"
-    if names == []:
-        DIR_KIND[0] = "1"
-        return "pinned: endswith retirement (Model.Apps.dir_kind)"
-    raise core.CheckError(f"store variant probe gave an unexpected observation: {str(r)[:400]}")
+    """behavioural probes: which of the repairs are present in the code under test.  The probes only SELECT the model
+    variant (Model.Apps: dir_kind / dir_kind_fixed, apply_to / apply_to_v with flags); whatever they select, every case
+    is still compared with the oracle, so a regression of a repair is reported as a violation, not hidden here."""
+    s_retire = std_pipeline(1)
+    apply_pattern(s_retire, "ba.fa", (0, ["raise", "boom"]))
+    s_bare = [spec("g1", style="func_args"), spec("g2", style="class")]
+    s_bare[1]["script"]["k2"] = ["ncnosrc", "FALSE"]
+    s1 = std_pipeline(1)
+    apply_pattern(s1, "bb.fa", (0, ["raise", "boom"]))
+    s2 = std_pipeline(1)
+    apply_pattern(s2, "bb.fa", (0, ["raise", "boom"]))
+    probes = [
+        dict(block="probe", phases=[phase(s_retire, [sinput("ba.fa"), sinput("a.fa")], None)]),
+        dict(block="probe", phases=[phase([spec("g1"), spec("g2")], [oinput("k2", "o2.fa", truthy=False), oinput("k1", "o1.fa")], None)]),
+        dict(block="probe", phases=[phase(s_bare, [oinput("k1", "o1.fa"), oinput("k2", "o2.fa")], None)]),
+        dict(block="probe", phases=[phase(s1, [sinput("a.fa"), sinput("bb.fa")], None), phase(s2, [sinput("a.fa"), sinput("bb.fa")], None)]),
+    ]
+    r = core.run_impl_lines("c14_impl.py", probes)
+    if any(isinstance(x, dict) or not x for x in r):
+        raise core.CheckError(f"variant probes could not be run: {str(r)[:400]}")
+    exact = [n[0] for n in r[0][0].get("nc", [])] == ["ba.json"]
+    keep = len(r[1][0].get("asc", [])) == 2
+    wrap = r[2][0].get("exc") is None
+    ups = len(r[3]) == 2 and r[3][1].get("exc") is None and r[3][1].get("live_nc") == ["bb.json"]
+    DIR_KIND[0] = "2" if exact else "1"
+    VARIANT[0] = (1 if keep else 0) + (2 if wrap else 0) + (4 if ups else 0)
+    return dict(directory_retirement="exact name (dir_kind_fixed)" if exact else "endswith (dir_kind, pinned)",
+                proxy_input="keeps falsy objects (repaired)" if keep else "drops falsy inputs (pinned)",
+                apply_to="wraps every input in a source_proxy (repaired)" if wrap else "objects with .source not proxied (pinned)",
+                store_writes="existing member replaced (repaired)" if ups else "duplicate live member possible (pinned)",
+                model_variant=("apply_to_v (mkvariant %s %s %s)" % (keep, wrap, ups)) if VARIANT[0] else "apply_to (pinned)")
 
 
 def coq_case(c):
     """DataStoreDirectory(suffix=json)+write_json -> dir_kind / dir_kind_fixed; DataStoreSqlite+write_db -> the plain dictionary"""
-    kind = "0" if c.get("store") == "sqlite" else DIR_KIND[0]
+    kind = str(int("0" if c.get("store") == "sqlite" else DIR_KIND[0]) + 10 * VARIANT[0])
     return "(" + kind + ", [" + ";".join(coq_phase(p) for p in c["phases"]) + "])"
 
 
@@ -692,15 +711,6 @@ def compare(rep, cases, impl, model, disagreements):
                                           "(or raised / called a stage it should not have)"))
                 break
             if mod is not None and g2 != mod:
-                hz = hazards(c)
-                if exp is not None and hz:
-                    # the implementation satisfies the specification on an identifier / input class outside the
-                    # hypotheses of the theorems, where the model (of the pinned code) does not: the defect that the
-                    # corresponding _refuted theorem records has been fixed in the code.  Not a correspondence break
-                    # of anything a theorem claims; reported in the evidence.
-                    for h in hz:
-                        rep.stale[h] = rep.stale.get(h, 0) + 1
-                    break
                 ndis += 1
                 if len(disagreements) < 5:
                     disagreements.append(dict(key=f"phase:{c.get('block')}", case=small_case(c, pi), phase=pi,
@@ -767,10 +777,11 @@ def run(tier: str, seed: int) -> int:
         "json, pathlib, re, scitrack logging, the file system under DataStoreDirectory",
     ])
     rep.assumptions += [
-        "exactly-one / schedule-independence theorems for the directory store hold for identifiers that are separated "
-        "(none is a proper suffix of another), undotted and free of the store suffix text; outside that class the model itself "
-        "is order dependent (see the _refuted theorems) and the check compares the implementation with the oracle directly",
-        "inputs are truthy and, when they carry their own .source, every stage preserves it",
+        "the model variant (pinned / repaired definitions of _proxy_input, apply_to, the store writes and the directory "
+        "retirement rule) is selected by behavioural probes of the code under test and recorded under coverage.store_variant; "
+        "the theorems for the repaired variant need unique identifiers on which the store is a dictionary (good_kind) and "
+        "nothing about the inputs; the theorems for the pinned variant additionally need plain_input and separated identifiers",
+        "directory store: identifiers containing a dot are outside good_kind (Path.stem normalisation, open known finding)",
     ]
     proof_broken = bool(pr["problems"])
     rep.coverage["store_variant"] = probe_store_variant()
@@ -790,7 +801,6 @@ def run(tier: str, seed: int) -> int:
     if model is None:
         model = [None] * len(allcases)
     disagreements: list = []
-    rep.stale = {}  # hazard class -> cases where impl == oracle != model
     nvio, ndis = compare(rep, allcases, allimpl, model, disagreements)
 
     # which cases do the exactly-one theorems cover?  Decided inside Coq: good_kind_b on the identifiers of the case
@@ -848,7 +858,6 @@ def run(tier: str, seed: int) -> int:
         input_distribution=dict(cases=len(allcases), blocks=dist, non_identity_orders=nperm, real_parallel_runs=len(real_cases)),
         model_impl_disagreements=ndis, spec_violations=nvio,
         run_matrix=dict(sorted(matrix.items())),
-        fixed_defect_classes=rep.stale,
         cases_with_good_identifiers=covered, cases_with_identifiers_outside_theorem=uncovered,
         partial=["real multiprocessing (loky) schedules are sampled, not proved: the theorems quantify over every order in "
                  "which as_completed may yield the results and every chunking of the task list",
@@ -857,9 +866,6 @@ def run(tier: str, seed: int) -> int:
                  "traceback text of captured exceptions is compared by its last line only"],
         exhaustive=False,
     )
-    if rep.stale:
-        rep.notes.append("implementation meets the specification where the model of the pinned code does not, on input classes "
-                         f"outside the theorems' hypotheses {rep.stale}: the matching _refuted theorems describe code that has been fixed")
     core.conclude(rep, pr, f"{len(allcases)} cases against the one-record-per-input oracle", disagreements, TIE, tier, PROP)
     return rep.finish("proof")
 
